@@ -748,6 +748,7 @@ func fieldCapClass(c int) string {
 
 func resetC17Globals() {
 	resetKnobs()
+	j2tExtraSteps = 0
 	conv.DefaultBufferSize = 4096
 	conv.DefaulHttpValueBufferSizeForJSON = 1024
 	conv.DefaulHttpValueBufferSizeForScalar = 64
@@ -821,6 +822,16 @@ func runC17(w *W) {
 	}
 	if t.Chance(1, 4, "sch.wide") {
 		go_.NRoot = 8 + t.Intn(10, "sch.wide.n")
+	}
+	// "more root fields than the native field cache": the cache is shrunk by a knob in many worlds; rarely the
+	// root really has more fields than the cache's default capacity (4096), so that the cache has to grow
+	// from its real size while the unset fields are traced back
+	if o.Mapping && o.RHVF && o.Traceback && bodyKind == hbJSON && t.Chance(1, 40, "sch.hugeroot") {
+		go_.NRoot = 4100 + t.Intn(300, "sch.hugeroot.n")
+		go_.AnnoPct, go_.Containers, go_.Nested = 2, false, false
+		j2tExtraSteps = uint64(go_.NRoot) * 2000
+		w.Count("huge_root_worlds")
+		w.Sig("hugeroot")
 	}
 	// a lazily read body (FromUrl, or FromStdReq without a parsed content type) together with
 	// body-derived annotations is the LazyBody switch; otherwise worlds that use lazy constructors
